@@ -217,8 +217,11 @@ def _scan(repo):
 
 
 def generate(repo, outdir):
-    import vlib
-    sites = scan(repo)
+    import vlib, gen_consts
+    try:
+        sites = scan(repo)
+    except Exception as e:      # never take the other checks' prelude down with a parsing accident
+        raise gen_consts.TieError(f"alloc_sites: cannot read the allocation call sites: {type(e).__name__}: {e}")
     if len(sites) < 60:
         import gen_consts
         raise gen_consts.TieError(f"alloc_sites: only {len(sites)} allocation call sites found in the anchored files (expected > 60)")
